@@ -2,6 +2,6 @@
 From Coq Require Import ExtrOcamlBasic.
 From Coq Require Extraction.
 From Coq Require Import ZArith.
-From LJT Require Import model.SuspendCore model.SuspendMarker model.SuspendHuff model.SuspendEnc model.SuspendRefine.
+From LJT Require Import model.SuspendCore model.SuspendMarker model.SuspendHuff model.SuspendEnc model.SuspendRefine model.SuspendProg.
 Extraction Language OCaml.
-Extraction "x_c09.ml" run_markers minit default_procs resume_after_sos marker_unit cget run_scan hinit scan_blocks toy_run toy_pure run_scan_sw run_refine qinit derive_dtbl Z.div Z.modulo.
+Extraction "x_c09.ml" run_markers minit default_procs resume_after_sos marker_unit cget run_scan hinit scan_blocks toy_run toy_pure run_scan_sw run_refine run_dc_first run_ac_first run_dc_refine run_lossless_mcus pq_init dq_init qinit derive_dtbl Z.div Z.modulo.
